@@ -93,19 +93,28 @@ REAL_SCRIPT = r'''
 import sys, json
 from dataflows import Flow, parallelize
 n, m, pat = int(sys.argv[1]), int(sys.argv[2]), sys.argv[3]
+up = sys.argv[4] if len(sys.argv) > 4 else 'none'
 def sel(i):
     return {'all': True, 'none': False, 'some': i % 3 != 1, 'first-late': i >= m - 2}[pat]
 def pred(row): return sel(row['i'])
 def work(row): row['v'] += 1000
 rows = [{'i': i, 'v': i} for i in range(m)]
-res = Flow(rows, parallelize(work, num_processors=n, predicate=pred)).results()[0]
+def rows_gen(rows):
+    for r in rows:
+        yield r
+def rows_list(rows):
+    return sorted(rows, key=lambda r: r['i'])      # a rows step may return any iterable of rows
+def rows_tuple(rows):
+    return tuple(rows)
+upstream = {'none': [], 'rows-generator': [rows_gen], 'rows-returns-list': [rows_list], 'rows-returns-tuple': [rows_tuple]}[up]
+res = Flow(rows, *upstream, parallelize(work, num_processors=n, predicate=pred)).results()[0]
 got = sorted(r['v'] for r in res[0]) if res else []
 exp = sorted((i + 1000) if sel(i) else i for i in range(m))
 print(json.dumps({'ok': got == exp, 'got_len': len(got), 'exp_len': len(exp)}))
 '''
 
 
-def real_case(ctx, rng, many=None):
+def real_case(ctx, rng, many=None, up=None):
     rep = ctx.report
     n = rng.choice([1, 2, 3, 4])
     m = rng.choice([1, 2, 7, 150, 1000] if ctx.quick else [1, 2, 7, 150, 1000, 3000])
@@ -113,18 +122,20 @@ def real_case(ctx, rng, many=None):
     if many is not None:
         # "every number of workers": far more workers than rows, and more than the machine has cores
         n, m, pat = many, 9, 'some'
-    case = {'real-multiprocess': True, 'workers': n, 'rows': m, 'pattern': pat}
+    # what feeds parallelize: the source itself, or a user `rows` step that yields / returns a list / returns a tuple
+    up = up or rng.choice(['none', 'rows-generator', 'rows-returns-list', 'rows-returns-tuple'])
+    case = {'real-multiprocess': True, 'workers': n, 'rows': m, 'pattern': pat, 'step_in_front': up}
     script = os.path.join(ctx.scratch, 'real.py')
     with open(script, 'w') as f:
         f.write(REAL_SCRIPT)
     try:
-        p = subprocess.run([sys.executable, '-W', 'ignore', script, str(n), str(m), pat], stdout=subprocess.PIPE,
+        p = subprocess.run([sys.executable, '-W', 'ignore', script, str(n), str(m), pat, up], stdout=subprocess.PIPE,
                            stderr=subprocess.DEVNULL, timeout=90, text=True)
         lines = [ln for ln in p.stdout.splitlines() if ln.startswith('{')]
         out = json.loads(lines[-1]) if lines else {'ok': False, 'note': 'no output, exit %s' % p.returncode}
     except subprocess.TimeoutExpired:
         out = {'ok': False, 'note': 'hang'}
-    rep.case('real-mp', case, key=[n, m, pat])
+    rep.case('real-mp', case, key=[n, m, pat, up])
     if not out.get('ok'):
         rep.fail('real-run:%s' % ('hang' if out.get('note') == 'hang' else 'wrong-multiset'), case, out)
 
@@ -144,8 +155,8 @@ def run(ctx):
         for _ in range(ctx.n(250, 4000)):
             controlled_case(ctx, rng, pending)
         exhaustive_small(ctx, pending)
-    for _ in range(ctx.n(6, 40)):
-        real_case(ctx, rng)
+    for j in range(ctx.n(8, 40)):
+        real_case(ctx, rng, up=['none', 'rows-generator', 'rows-returns-list', 'rows-returns-tuple'][j % 4])
     for many in (33, 70):
         real_case(ctx, rng, many=many)
     if ctx.model.available():
